@@ -34,7 +34,7 @@ LEVEL_NOTE = (
     "(busy frames so far) x 50 ms) + 20 ms; consecutive indications >= 20 ms apart; exactly one L_Data.con equal to the sent frame per completed send_cemi; "
     "a send that never completes (deadlock on the virtual loop) is a violation. The exact busy-counter model (N incremented by a busy frame arriving > 10 ms after the previous one during a pause, extension random() x N x 50 ms fixed when the pause is set, "
     "N decremented every 5 ms after N x 100 ms) started as a shadow oracle; after 0 disagreements in > 10^6 comparisons it is gating: the send instant must equal the model's within 1 us, except in histories "
-    "with an event within 10 ns of a model boundary (not compared). Recorded, not judged: concurrent senders (spacing and pause rule are recorded there; only the confirmation count is judged)."
+    "with an event within 10 ns of a model boundary (not compared). Concurrent senders (2-3 send_cemi callers at once, as management acknowledgements beside queue traffic): spacing, the no-send-during-announced-wait rule and the confirmation count are judged; the upper progress bound and the exact busy-counter model are judged for the sequential sender only."
 )
 SHARDS = {"quick": 1, "thorough": 16}
 TIMEOUT = {"quick": 200, "thorough": 1500}
@@ -338,12 +338,12 @@ def run_history(ctx, spec):
     for (a, _, _), (b, _, _) in zip(tx, tx[1:], strict=False):
         ctx.ev()
         if b - a < SPACING - EPS:
-            if sequential:
-                ctx.violation("indications-closer-than-20ms", dict(base, first=a - st["t0"], second=b - st["t0"]), f"two RoutingIndications {1000 * (b - a):.3f} ms apart")
-            else:
-                ctx.count("concurrent_spacing_lt_20ms")
+            # judged for concurrent senders too (management acknowledgements are sent beside queue traffic):
+            # the statement says "consecutive routing indications", whoever sends them
+            mech = "indications-closer-than-20ms" if sequential else "indications-of-concurrent-senders-closer-than-20ms"
+            ctx.violation(mech, dict(base, first=a - st["t0"], second=b - st["t0"]), f"two RoutingIndications {1000 * (b - a):.3f} ms apart ({spec['mode']} senders)")
         else:
-            ctx.count("spacing_ok")
+            ctx.count("spacing_ok" if sequential else "concurrent_spacing_ok")
 
     # the pause rule, robust bounds
     order = sorted(range(len(sends)), key=lambda i: sends[i]["call"])
@@ -359,13 +359,12 @@ def run_history(ctx, spec):
             if s_t < end - EPS:
                 same = abs(s_t - b_t) < 1e-9
                 mech = "indication-sent-in-same-instant-after-busy-frame" if same else "indication-sent-during-announced-wait"
-                if sequential:
-                    ctx.violation(
-                        mech, dict(base, busy_at=b_t - st["t0"], wait_ms=wait, sent_at=s_t - st["t0"], iteration_offset=spec.get("iteration_offset")),
-                        f"RoutingIndication left {1000 * (s_t - b_t):.3f} ms after a busy frame announcing {wait} ms was received",
-                    )
-                else:
-                    ctx.count("concurrent_sent_during_wait")
+                if not sequential:
+                    mech += "-concurrent-senders"
+                ctx.violation(
+                    mech, dict(base, busy_at=b_t - st["t0"], wait_ms=wait, sent_at=s_t - st["t0"], iteration_offset=spec.get("iteration_offset")),
+                    f"RoutingIndication left {1000 * (s_t - b_t):.3f} ms after a busy frame announcing {wait} ms was received",
+                )
                 break
         else:
             ctx.count("sent_outside_every_announced_wait")
@@ -420,7 +419,7 @@ def run(ctx):
         "and in the slow-down phase) x scripted random extension; io-gap: second busy frame queued in the I/O phase of iteration k+j after the pause end; "
         "distinct = (mode, number of sends, busy waits in arrival order, first send instants in ms)"
     )
-    ctx.require("histories_sequential", "histories_io-gap", "histories_concurrent", "busy_frames", "routing_indications", "confirmations", "spacing_ok",
+    ctx.require("histories_sequential", "histories_io-gap", "histories_concurrent", "concurrent_spacing_ok", "busy_frames", "routing_indications", "confirmations", "spacing_ok",
                 "sent_outside_every_announced_wait", "random_extension_draws", "shadow_agreements")
     n = ctx.scale(1500, 24000)
     for i in range(n):
